@@ -345,7 +345,7 @@ func (c *Contact) Context(env envs.Environment) map[string]types.XValue {
 	}
 
 	if c.lastSeenOn != nil {
-		lastSeenOn = types.NewXDateTime(*c.lastSeenOn)
+		lastSeenOn = types.NewXDateTime(StoredTime(*c.lastSeenOn))
 	}
 
 	tickets := types.XArrayEmpty
@@ -362,7 +362,7 @@ func (c *Contact) Context(env envs.Environment) map[string]types.XValue {
 		"language":     types.NewXText(string(c.language)),
 		"timezone":     timezone,
 		"status":       types.NewXText(string(c.status)),
-		"created_on":   types.NewXDateTime(c.createdOn),
+		"created_on":   types.NewXDateTime(StoredTime(c.createdOn)),
 		"last_seen_on": lastSeenOn,
 		"urns":         c.urns.ToXValue(env),
 		"urn":          urn,
